@@ -11,19 +11,26 @@ KnownIds == {"C12-KF1", "C12-KF2", "C12-KF3", "C12-KF4"}
 TwoSymbols(t) == \E i, j \in 1..Len(t) : t[i] # t[j]
 
 (* does the contract accept this answer event?  (state predicate; only the derived answers) *)
-AsRangesK(e) == IF e.api = "search"
-                THEN [k \in 1..Len(e.res) |-> <<e.res[k][1], e.res[k][1] + e.res[k][2]>>]
-                ELSE e.res
-DerivedOps == {"lcp", "lcp_at", "search", "find", "count", "match", "find_ranked"}
+HasF(e, f) == f \in DOMAIN e
+StartCount(res) == [k \in 1..Len(res) |-> <<res[k][1], res[k][1] + res[k][2]>>]
+(* one search event carries the answers of every search API of the subject for the same patterns: *)
+(*   search = (start, count)   range = [lo, hi)   find = positions   count   match = (lo, hi, depth) *)
+(*   ranked = positions in suffix order                                                              *)
+SearchEventAns(e) ==
+    /\ HasF(e, "search") => SearchesAns(e.pats, StartCount(e.search))
+    /\ HasF(e, "range")  => SearchesAns(e.pats, e.range)
+    /\ HasF(e, "find")   => FindsAns(e.pats, e.find)
+    /\ HasF(e, "count")  => CountsAns(e.pats, e.count)
+    /\ HasF(e, "match")  => MatchesAns(e.pats, e.match)
+    /\ HasF(e, "ranked") => RankedFindsAns(e.pats, e.ranked)
+LcpEventAns(e) ==
+    /\ HasF(e, "lcp") => LcpAns(e.lcp)
+    /\ HasF(e, "at")  => LcpAtAns(e.at)
+DerivedOps == {"lcp", "lcp_at", "search"}
 DerivedAns(e) ==
-    CASE e.op = "lcp"         -> LcpAns(e.lcp)
-      [] e.op = "lcp_at"      -> LcpAtAns(e.r)
-      [] e.op = "search"      -> SearchesAns(e.pats, AsRangesK(e))
-      [] e.op = "find"        -> FindsAns(e.pats, e.res)
-      [] e.op = "count"       -> CountsAns(e.pats, e.res)
-      [] e.op = "match"       -> MatchesAns(e.pats, e.res)
-      [] e.op = "find_ranked" -> RankedFindsAns(e.pats, e.res)
-      [] OTHER                -> TRUE
+    CASE e.op \in {"lcp", "lcp_at"} -> LcpEventAns(e)
+      [] e.op = "search"            -> SearchEventAns(e)
+      [] OTHER                      -> TRUE
 
 (* C12-KF1: the SA-IS construction (SuffixArrayAlgorithm::SAIS; also what Adaptive selects from    *)
 (* adaptive_threshold = 10 000 bytes on, what compression::SuffixArrayCompressor and the PA-Zip     *)
